@@ -68,6 +68,15 @@ def make_recipes(seed, n_random):
         for k, src in enumerate([f"p.Sum({inner})", f"p.Product((p.Sum({inner}), 2))",
                                  f"p.Call(p.Variable('f'), {inner})"]):
             recipes.append({"id": f"w{j}_{k}", "kind": "expr", "src": src, "nontrivial": True})
+    # free variables whose names differ only in case, some listed and some not: the callable
+    # takes the listed ones first and the others in NAME order ('A' < 'X' < 'a' < 'b' < 'x'),
+    # in every process
+    cased = "p.Sum((p.Product((1000, p.Variable('x'))), p.Product((100, p.Variable('A'))), " \
+            "p.Product((10, p.Variable('a'))), p.Variable('b'), p.Product((7, p.Variable('X')))))"
+    for j, listed in enumerate([["x"], [], ["b", "A"], ["a"]]):
+        allv = listed + sorted(n for n in ["x", "A", "a", "b", "X"] if n not in listed)
+        recipes.append({"id": f"k{j}", "kind": "compiled", "src": cased, "vars": listed,
+                        "varkind": "list", "allvars": allv, "nontrivial": True})
     tg = G.TypedGen(rng, int_kinds=["sum", "prod", "fdiv", "rem", "pow", "if", "min", "max", "neg"],
                     bool_kinds=["cmp", "not", "or", "and"])
     for j in range(40):
